@@ -353,6 +353,22 @@ func checkC07(c *Ctx) {
 			c.Fail(Finding{Sig: sig, Input: in, What: truncate(msg, 400) + " for configuration " + cf.key(), Replay: obj{"kind": "c07", "cfg": cf}})
 			return
 		}
+		// "renamed deterministically": the same configuration restored again gives the same bytes (the
+		// restorer walks Go maps; every choice has to be made in a fixed order)
+		if conflict && i%4 == 0 {
+			for rep := 0; rep < 6; rep++ {
+				o2, m2 := impRun(cf)
+				if m2 != "" || o2.Output != obs.Output {
+					c.Fail(Finding{Sig: "imports-nondeterministic", Input: cf.key(), What: fmt.Sprintf("the same configuration restored twice gives different results (%s):\n%s\nvs\n%s", m2, obs.Output, func() string {
+						if o2 != nil {
+							return o2.Output
+						}
+						return ""
+					}()), Replay: obj{"kind": "c07", "cfg": cf}})
+					return
+				}
+			}
+		}
 		used := []string{}
 		for _, p := range impPaths {
 			if cf.Used[p] {
